@@ -553,6 +553,25 @@ func checkStartBlockTable(c *core.Ctx, mn int64) {
 	if fn == nil {
 		return
 	}
+	// the gate compares the RELAY chain's height: every caller passes native.GetHeight() (the height of
+	// the block being executed), never a height taken from the request (which the submitter chooses)
+	{
+		nSites := 0
+		for _, e := range c.P.CG().In[fn] {
+			if e.Site == nil || e.Site.Common().StaticCallee() != fn {
+				continue
+			}
+			nSites++
+			a := e.Site.Common().Args
+			okH := false
+			if cl, _ := ir.CallOf(a[1]); cl != nil && ir.CalleeObj(cl) != nil && ir.CalleeObj(cl).Name() == "GetHeight" && recvNamed(cl, "NativeService") {
+				okH = true
+			}
+			c.Decide(okH, "C21.start-block-table", e.Caller, "the start-block gate is evaluated at the relay chain's current height (native.GetHeight())", c.P.Rel(e.Site.Pos()),
+				"the height compared with the router's start block is "+short(a[1].String())+": a value the submitter controls opens the router before its activation")
+		}
+		c.Floor("CheckRouterStartBlock call sites", nSites, 1)
+	}
 	// tests `router == <global>`
 	type rt struct {
 		cd   ir.Cond
